@@ -1,4 +1,4 @@
 SPECIFICATION Spec
-CONSTANTS ScenSet = {1, 2, 3, 4, 5, 6} Variant = "ok"
+CONSTANTS ScenSet = {1, 2, 3, 4, 5, 6, 7} Variant = "ok"
 INVARIANT ShowBad NoViolation
 CHECK_DEADLOCK FALSE
